@@ -25,6 +25,10 @@ def suites(ctx):
     r = runc.run_custom(40 if ctx["tier"] == "quick" else 400, "C07")       # the calendar of whole concrete runs
     r["ties"] = "RunConcrete.v: whole runs (clock + concrete days + season resets) against the implementation's tables"
     out.append(r)
+    from suites import initialise as ini
+    r2 = ini.run_l3(48 if ctx["tier"] == "quick" else 600); r2["suite"] = "initialise"
+    r2["ties"] = "Init/Initialise.v: the season list, the crop calendar of every season and whole simulations from the user's configuration"
+    out.append(r2)
     if ctx["tier"] != "quick":     # exhaustive over pandas' Timestamp range (213 503 days) + samples of datetime's range
         out.append(l1.run_suite("calendar_dates", cal.gen_dates, 20000, unit="calendar"))
     return out
